@@ -320,10 +320,10 @@ pub fn run(ctx: &Ctx) -> Report {
     let mut rep = Report::new(ID, "exploration", ctx);
     rep.rule = "Generated: files built from segments (class / line-mapped method / method without usable range in 3 spellings / field / compiler, compiler_version, min_api and look-alike headers with well-formed, malformed, valueless and > u32 values / error lines / blank lines), each repeated 1, 2..5, 47..52, 1000 or 10000 times, so that the deciding record sits after 0, 1, 49, 50, 51, thousands of negatives or in the last line without terminator; LF or CRLF; plus hostile token mutants and raw bytes. Oracle: (1) truth computed from the generated line list, (2) the fold over ProguardMapping::iter() stated in the property; has_line_info / is_valid / summary must equal both. evaluations = files. Non-trivial = distinct files whose deciding record (first line-mapped method, last metadata header) is not among the first 10 items.".into();
     rep.assumptions = vec!["min_api is the u32 parse of the last min_api header value; values with a leading '+' are not generated".into()];
-    rep.run_stage("segments", meta_case, ctx.cases(40_000, 600_000), check_case);
+    rep.run_stage("segments", meta_case, ctx.cases(40_000, 1_800_000), check_case);
     let cfg = crate::gen::mapping::GenCfg { plain_sourcefile_headers: true, ..Default::default() };
-    rep.run_stage("mutants", move || crate::gen::mutate::hostile_case(&cfg), ctx.cases(40_000, 600_000), |c: &crate::gen::mutate::MutCase, st: &mut Stats| check_raw(&c.bytes(), st));
-    rep.run_stage("bytes", || vec(any::<u8>(), 0..300).prop_map(|v| RawCase { hex: hex(&v) }), ctx.cases(40_000, 600_000), |c: &RawCase, st: &mut Stats| check_raw(&unhex(&c.hex), st));
+    rep.run_stage("mutants", move || crate::gen::mutate::hostile_case(&cfg), ctx.cases(40_000, 1_800_000), |c: &crate::gen::mutate::MutCase, st: &mut Stats| check_raw(&c.bytes(), st));
+    rep.run_stage("bytes", || vec(any::<u8>(), 0..300).prop_map(|v| RawCase { hex: hex(&v) }), ctx.cases(40_000, 1_800_000), |c: &RawCase, st: &mut Stats| check_raw(&unhex(&c.hex), st));
     let files = super::c02::corpus_files();
     rep.run_enum("corpus", &files, |p: &String, st: &mut Stats| {
         let b = std::fs::read(p).map_err(|e| Fail::new("harness-io", e.to_string()))?;
